@@ -424,7 +424,7 @@ class Run:
                 child.ninstr = 0
                 child.ov = {}
                 child.rd = set()
-                mark = (len(m.log), len(m.violations), len(m.pending_spawns), len(m.reached), len(m.asserted), len(m.constraints))
+                mark = (len(m.log), len(m.violations), len(m.pending_spawns), len(m.reached), len(m.asserted), len(m.constraints) - m.stats.get("lemmas", 0))
                 m.stats["macro_steps"] += 1
                 res = m.run_alt(child)
                 if self.is_stutter(a, res, mark):
@@ -535,9 +535,10 @@ class Run:
             return (False, 'L%d' % __import__('sys')._getframe().f_lineno)
         r = res[0]
         if r.status != "parked" or r.ov or r.ack != a.ack or r.pending is not None:
-            return (False, 'L%d' % __import__('sys')._getframe().f_lineno)
-        if mark != (len(m.log), len(m.violations), len(m.pending_spawns), len(m.reached), len(m.asserted), len(m.constraints)):
-            return (False, 'L%d' % __import__('sys')._getframe().f_lineno)
+            return (False, 'writes %r ack %r->%r pending %r' % (list(r.ov)[:4], a.ack, r.ack, r.pending is not None))
+        now = (len(m.log), len(m.violations), len(m.pending_spawns), len(m.reached), len(m.asserted), len(m.constraints) - m.stats.get("lemmas", 0))
+        if mark != now:
+            return (False, 'mark %r -> %r %s' % (mark, now, str(m.constraints[-1])[:300] if now[5] != mark[5] else ''))
         if r.loc() != a.loc() or (r.info is None) != (a.info is None):
             return (False, 'L%d' % __import__('sys')._getframe().f_lineno)
         if r.nalloc != a.nalloc or r.nspawn != a.nspawn:
